@@ -58,8 +58,6 @@ def known_class(args, pos, layer="L1c"):
                 return "esc-expanded"
             if tx == "&" and last and pos == "plain":
                 return "esc-amp-last"
-            if layer == "L2" and tx[-1] in " \t" and last and pos in ("plain", "list"):
-                return "esc-trailing-blank"
     return None
 
 
